@@ -927,7 +927,7 @@ pub fn c03() -> Simple {
         thorough: 8_000_000,
         budget_q: 60,
         budget_t: 600,
-        owns: &[
+        owns: &["early-exit-reply", 
             "resp-shape",
             "resp-more-flag",
             "resp-malformed",
@@ -1043,6 +1043,7 @@ fn gen_c05(r: &mut Rng, t: Tier, job: u64) -> Plan {
                     pull_params: None,
                     pull_skip: 0,
                     mixed_rows: 0,
+                    ret_panic: false,
                 }),
             },
         );
@@ -1077,6 +1078,7 @@ fn gen_c05(r: &mut Rng, t: Tier, job: u64) -> Plan {
                     pull_params: None,
                     pull_skip: 0,
                     mixed_rows: 0,
+                    ret_panic: false,
                 }),
             },
         );
@@ -1154,6 +1156,7 @@ fn gen_c12(r: &mut Rng, _t: Tier, _job: u64) -> Plan {
                     pull_params: None,
                     pull_skip: 0,
                     mixed_rows: 0,
+                    ret_panic: false,
                 }),
             },
         );
